@@ -11,6 +11,7 @@ import (
 	clientv2types "github.com/cosmos/ibc-go/v11/modules/core/02-client/v2/types"
 	connectiontypes "github.com/cosmos/ibc-go/v11/modules/core/03-connection/types"
 	channeltypes "github.com/cosmos/ibc-go/v11/modules/core/04-channel/types"
+	channeltypesv2 "github.com/cosmos/ibc-go/v11/modules/core/04-channel/v2/types"
 	porttypes "github.com/cosmos/ibc-go/v11/modules/core/05-port/types"
 	commitmenttypes "github.com/cosmos/ibc-go/v11/modules/core/23-commitment/types"
 	"github.com/cosmos/ibc-go/v11/modules/core/api"
@@ -48,6 +49,16 @@ const (
 	Relayer   = "cosmos1qyqszqgpqyqszqgpqyqszqgpqyqszqgpjnp7du"
 )
 
+// Accounts is a pool of valid bech32 account addresses (bytes 0x01.., 0x02.., ... x20); a symbolic signer is a
+// solver-chosen member of the pool (bech32 checksums are outside the solvers' reach, so signers are not free strings).
+var Accounts = []string{Relayer, Authority, "cosmos1qvpsxqcrqvpsxqcrqvpsxqcrqvpsxqcrz8x6vt", "cosmos1qszqgpqyqszqgpqyqszqgpqyqszqgpqyzhplth", "cosmos1q5zs2pg9q5zs2pg9q5zs2pg9q5zs2pg9r8q7pk"}
+
+// SymAccount picks an arbitrary account from the pool.
+func SymAccount(name string) string { return Accounts[verif.Choice(name, len(Accounts))] }
+
+// SymAccountN picks among the first n accounts of the pool.
+func SymAccountN(name string, n int) string { return Accounts[verif.Choice(name, n)] }
+
 // World is one chain: a context over arbitrary stores and the real IBC core keeper wired to symbolic
 // light client and application modules.
 type World struct {
@@ -64,6 +75,10 @@ func NewWorld() *World {
 	verif.RegisterType(&connectiontypes.ConnectionEnd{})
 	verif.RegisterType(&clienttypes.Params{})
 	verif.RegisterType(&connectiontypes.Params{})
+	verif.RegisterType(&connectiontypes.ClientPaths{})
+	verif.RegisterType(&clientv2types.CounterpartyInfo{})
+	verif.RegisterType(&clientv2types.Config{})
+	verif.RegisterType(&channeltypesv2.Packet{})
 	w := &World{Ctx: verif.NewCtx(), LC: SymLC{}, App: &SymApp{}, AppV2: &SymAppV2{}}
 	w.IBC = ibckeeper.NewKeeper(Codec{}, StoreService{Name: "ibc"}, UpgradeKeeper{X: 1}, Authority)
 	w.IBC.ClientKeeper.AddRoute(ClientType, w.LC)
